@@ -156,8 +156,20 @@ def main():
             # the crashed process had already entered the next step's first state; the backup was written before that
             finish(sim, probe, "step", out)
         else:
-            for _ in range(int(job.get("prior_contexts", 0))):
-                SimulationContext(components=[], configuration={"population": {"population_size": 1}}, logging_verbosity=0)
+            for k in range(int(job.get("prior_contexts", 0))):
+                if k % 2 == 0:
+                    # a whole DIFFERENT simulation earlier in this process (set up, stepped, finalized)
+                    from . import enginekit
+                    ps = enginekit.prior_spec(noise + k)
+                    psim = SimulationContext(components=components.build(ps), configuration=components.configuration(ps),
+                                             plugin_configuration=components.plugins(ps), logging_verbosity=0)
+                    psim.setup()
+                    psim.initialize_simulants()
+                    psim.step()
+                    psim.finalize()
+                    psim.get_results()
+                else:
+                    SimulationContext(components=[], configuration={"population": {"population_size": 1}}, logging_verbosity=0)
             if job.get("log_draws"):
                 drawlog.install()
             probe = Probe(noise)
